@@ -197,3 +197,15 @@ def run(P, R, tier):
 
 EXPLANATION += " Also: (BRANCH / COPYBACK) both execution paths of fit run the same kernels with the same inputs and everything the M-step writes is stored back through the setters; (ARGROLE.mstep) the M-step function receives the machine's own switches, thresholds and the relevance-factor flag with the right polarity; (COVER.pairs)."
 EXPLANATION += ' (COVER.tree) a tree-shaped fold in the M-step wrapper covers every block exactly once.'
+
+
+_run_c03_r6 = run
+
+
+def run(P, R, tier):
+    _run_c03_r6(P, R, tier)
+    from ..engines import carry as _carry
+    _carry.check_stale_derived(P, R, "gmm:GMMMachine.fit")
+
+
+EXPLANATION += " (STALE.derived) a local precomputed from the machine parameters inside the training loop is recomputed after every update of them."
